@@ -232,4 +232,25 @@ def quiescentBad (cfg : Cfg) (cache : Mod → Par → Entry) (tr : List Obs) : O
 def OthersUnaffected (cfg : Cfg) (σ σ' : State) (a : Act) : Prop :=
   step cfg σ a = some σ' → ∀ c' m p, a.t ≠ .h c' → listens σ' c' m p = listens σ c' m p
 
+/-! ## the tables belong to the requests
+
+"The scopes of other connections are unaffected", read on the dispatcher's tables themselves rather than on what they
+select at one moment: `listens` can stay the same while a table row changes (a connection that is globally active and
+is *additionally* entered under `m:p` listens to `m:p` before and after — but no longer stops listening at its global
+`deactivate`). -/
+
+/-- the activations of `c` possibly in force after `tr` (the state of `silentMon`) -/
+def liveAfter (tr : List Obs) : Conn → List Scope := silentMon.after silentMon.init tr
+
+/-- every entry of the tables — `c ∈ _active_connections`, `c ∈ _subscriptions[k]` under whatever key `k` — stands for an
+activation of that very connection that is still possibly in force (its own request put it there, nothing else did) -/
+def TablesOwn (σ : State) : Prop :=
+  (∀ c, σ.active c = true → Scope.all ∈ liveAfter σ.trace c) ∧
+  (∀ k c, σ.subs k c = true → ∃ s, s ≠ Scope.all ∧ s.key = k ∧ s ∈ liveAfter σ.trace c)
+
+/-- an action changes no table row but the one of the connection whose request thread acts; in particular an updater
+(`announceUpdate` → `broadcast_event`) changes none -/
+def TablesFrame (cfg : Cfg) (σ σ' : State) (a : Act) : Prop :=
+  step cfg σ a = some σ' → ∀ c', a.t ≠ .h c' → σ'.active c' = σ.active c' ∧ ∀ k, σ'.subs k c' = σ.subs k c'
+
 end Frappy.Spec.C08
